@@ -23,6 +23,9 @@ def draw_window(rng, rows):
         i = rng.randrange(n)
         j = rng.randrange(i, n)
         choices += [("ProfilerStep", None), ("ProfilerStep", i), ("ProfilerStep", (i, j))]
+        if n >= 2:
+            a = rng.randrange(n - 1)
+            choices += [("ProfilerStep", (a, rng.randrange(a + 1, n)))] * 2      # a range of at least two instances
     if annos:
         choices.append((rng.choice(annos), None))
     return rng.choice(choices)
@@ -139,7 +142,8 @@ def run_cp(case: dict, d: str, zero_weight_env: bool = False) -> Dict[str, Any]:
         if isinstance(e, AssertionError) and captured:
             g = captured[-1]
             ws = [g.edges[u, v]["weight"] for u, v in g.edges]
-            res["all_zero_weights"] = bool(len(ws) == 0 or all(w == 0 for w in ws))
+            # the known finding: a graph WITH edges, all of weight 0 (an empty graph is something else: no event was given nodes)
+            res["all_zero_weights"] = bool(len(ws) > 0 and all(w == 0 for w in ws))
             res["n_graph_edges"] = len(ws)
         return res, ta, None
 
